@@ -131,15 +131,43 @@ class LazyLogging(SimpleCodemod, NameAndAncestorResolutionMixin):
             # TODO: handle more complex case of str concat with different prefixes, such as
             # `logging.info("one: " + r"two \\n" + u'three '+  four)`
             return None
+        if (quote := self._common_quote(binop)) is None:
+            # e.g. 'say "hi" ' + "it's " + x: no quote style fits every piece as it is written
+            return None
         if prefixes:
             combined_format_string = cst.SimpleString(
-                value=f"""{prefixes[0]}{"".join(format_strings)}\""""
+                value=f"""{prefixes[0][:-1]}{quote}{"".join(format_strings)}{quote}"""
             )
         else:
             combined_format_string = cst.SimpleString(
-                value=f"""{'"' if type_both_sides == BaseType.STRING else ""}{"".join(format_strings)}\""""
+                value=f"""{quote if type_both_sides == BaseType.STRING else ""}{"".join(format_strings)}{quote}"""
             )
         return [cst.Arg(value=combined_format_string)] + format_args
+
+    def _common_quote(self, node: cst.CSTNode) -> str | None:
+        """
+        The quote the combined string can be written with: the quote all literal pieces share,
+        or `"` when no piece written with another quote contains a double quote.
+        """
+        pieces: list[cst.SimpleString] = []
+
+        def collect(n):
+            match n:
+                case cst.BinaryOperation(operator=cst.Add()):
+                    collect(n.left)
+                    collect(n.right)
+                case cst.SimpleString():
+                    pieces.append(n)
+
+        collect(node)
+        quotes = {piece.quote for piece in pieces}
+        if len(quotes) == 1:
+            return quotes.pop()
+        if any('"' in piece.raw_value for piece in pieces if piece.quote != '"') or any(
+            len(piece.quote) == 3 for piece in pieces
+        ):
+            return None
+        return '"'
 
     def make_args_for_modulo(self, binop: cst.BinaryOperation) -> list[cst.Arg]:
         format_string = binop.left
